@@ -117,6 +117,7 @@ pub fn run(p: &Program, record: bool) -> RunResult {
         }
         step_invariants(&sim, p, i);
     }
+    crate::adapter::take_back_given(&sim);
     // an adapter living inside a future of the loop's own executor is the documented
     // reference cycle: break it (remove the executors) so that the run leaks nothing
     let cyc: Vec<calloop::RegistrationToken> = {
@@ -237,6 +238,7 @@ fn pre_dispatch(sim: &Sim) {
         s.cb_this_dispatch = 0;
         s.pe_this_dispatch = 0;
         s.excused = false;
+        s.rereg_at_start = s.sh.rereg.get();
         s.errored_this_dispatch = false;
     }
     crate::life::dispatch_start(&mut st);
@@ -515,6 +517,11 @@ fn after_dispatch(sim: &Rc<Sim>, t: Timeout, ok: bool, err: Option<String>, t_st
                 Must::Process => s.pe_this_dispatch > 0,
             };
             if served || s.excused || s.indeterminate || s.errored_this_dispatch {
+                continue;
+            }
+            // a composite source re-registered by an earlier event of this batch (one of its
+            // children retired): C02's own exception, its timer children fire in the next one
+            if matches!(s.k, K::Comp(_)) && s.sh.rereg.get() > s.rereg_at_start {
                 continue;
             }
             if !ok && !flags_err_ok(&st) {
@@ -810,7 +817,7 @@ fn compute_must(sim: &Sim) {
                 }
             }
             K::Comp(k) => {
-                if crate::composite::has_cause(k, now) && !k.child_retired {
+                if crate::composite::has_cause(k, now) {
                     must.insert(*id, Must::Callback);
                 }
             }
@@ -843,7 +850,7 @@ pub fn batch_hook(sim: &Sim, events: &mut Vec<BatchEvent>, n_fd: usize) {
             continue;
         }
         match id {
-            None if st.adapter_keys.get(&e.key).and_then(|a| st.adapters.get(a)).map(|a| matches!(a.state, crate::adapter::AdState::Held | crate::adapter::AdState::InTask(_))).unwrap_or(false) => {}
+            None if st.adapter_keys.get(&e.key).and_then(|a| st.adapters.get(a)).map(|a| crate::adapter::alive(a.state)).unwrap_or(false) => {}
             None if st.leaked_keys.contains(&e.key) => {}
             None => {
                 // an fd event whose key belongs to no live registration
@@ -948,10 +955,13 @@ pub fn event_end(sim: &Sim, _key: usize) {
                         PostAction::Reregister => s.exp[1] += 1,
                         PostAction::Disable => {
                             s.exp[2] += 1;
-                            if !s.inserted && matches!(s.k, K::Trans(_)) {
-                                // disabled and removed in one event: the loop unregisters the
-                                // parent twice in a row, outside C18's proviso
-                                s.indeterminate = true;
+                            if !s.inserted {
+                                if let K::Trans(t) = &mut s.k {
+                                    // disabled and removed in one event: the loop unregisters the
+                                    // parent twice in a row, outside C18's proviso
+                                    t.gave_up = true;
+                                    s.indeterminate = true;
+                                }
                             }
                         }
                         _ => {}
